@@ -111,6 +111,20 @@ def run(ctx):
         workloads += [(n, c, sp, ab) for n in range(0, 9) for c in (1, 2, 3, 4) for sp in (True, False) for ab in (None, 1)]
     fault_positions = []
     with tempfile.TemporaryDirectory() as tmp:
+        # many spill files (more than any plausible per-process descriptor budget heuristics): fault-free and a few faults
+        for (n, cap) in [(300, 2), (450, 3)]:
+            out.evaluations += 1
+            base = scenario(n, cap, True, None, None, tmp)
+            if base["raised"] or base["leaked_files"] or base["leaked_fds"] or base["open_handles"] or len(base["output"]) != n:
+                out.failures.append({"what": "fault-free sort with %d spill files leaves resources behind or fails" % (n // cap), "kind": "clean-run",
+                                     "n": n, "capacity": cap, "got": {k: base[k] for k in ("raised", "leaked_files", "leaked_fds", "open_handles")}})
+            for k in sorted(rng.sample(range(len(base["calls"])), 6)):
+                out.evaluations += 1
+                obs = scenario(n, cap, True, None, k, tmp)
+                if obs["fired"] is not None and (obs["leaked_files"] or obs["leaked_fds"] or obs["open_handles"] or not obs["raised"]):
+                    out.failures.append({"what": "fault at call %d (%s) of a %d-file sort: leak or swallowed failure" % (k, base["calls"][k], n // cap),
+                                         "kind": "leak", "n": n, "capacity": cap, "got": {kk: obs[kk] for kk in ("raised", "leaked_files", "leaked_fds", "open_handles")}})
+                out.nontrivial.add(("many-files", n, cap, k))
         for (n, cap, sp, ab) in workloads:
             out.evaluations += 1
             base = scenario(n, cap, sp, ab, None, tmp, reiterate=(ab is None))
